@@ -55,7 +55,7 @@ OP_WEIGHTS = {
     "add": 4, "sub": 3, "restep": 3, "reversed": 4, "copy": 3, "from_ends": 5, "pow": 3, "resolve": 4,
     "distance": 3, "index": 4, "slice": 4, "contains": 2, "eq": 2, "encompassing": 2, "from_until": 2,
     "p_arith": 5, "p_compare": 4, "p_hash": 3, "p_calendar": 5, "p_keyword": 4, "p_mix": 3, "p_span_ops": 2,
-    "resolve_mix": 2, "p_derive": 4,
+    "resolve_mix": 2, "p_derive": 4, "p_convert": 4, "span_strings": 2,
 }
 MUTATING = {"reverse", "shift", "shift_start", "shift_end"}
 MAX_SPAN = 400      # periods; longer spans only make the per-step full comparison slow
@@ -218,8 +218,11 @@ class DatesWorld(World):
             stt["phase"] = 1
             return {"op": "p_calendar", "args": {"p": stt["h"]}}
         if stt["phase"] == 1:
-            stt["phase"] = 2
+            stt["phase"] = 1.5
             return {"op": "p_keyword", "args": {"p": stt["h"], "kw": rng.choice(["yoy", "soy", "eopy", "tty"]), "k": 1}}
+        if stt["phase"] == 1.5:
+            stt["phase"] = 2
+            return {"op": "p_convert", "args": {"p": stt["h"], "g": rng.choice(["Y", "H", "Q", "M", "D"]), "position": rng.choice(["start", "middle", "end"]), "day": rng.random()}}
         # advance: the successor joins, the old one is dropped (keeps the population at one walker)
         if stt["phase"] == 2:
             stt["phase"] = 3
@@ -403,6 +406,12 @@ class DatesWorld(World):
         # speak about it
         return {"op": "distance", "args": {"s": s, "p": p, "r": False}}
 
+    def _gen_span_strings(self, actor, rng):
+        s = self._pick_span(rng, actor, lambda m: not m.contextual and m.f != "I")
+        if s is None:
+            return None
+        return {"op": "span_strings", "args": {"s": s, "position": rng.choice(["start", "middle", "end"])}}
+
     def _gen_index(self, actor, rng):
         s = self._pick_span(rng, actor, lambda m: not m.contextual and len(m.rng()) > 0)
         if s is None:
@@ -498,6 +507,10 @@ class DatesWorld(World):
 
     def _gen_p_calendar(self, actor, rng):
         return self._gen_p(actor, rng, "p_calendar")
+
+    def _gen_p_convert(self, actor, rng):
+        return self._gen_p(actor, rng, "p_convert", g=rng.choice(["Y", "H", "Q", "M", "D"]), position=rng.choice(["start", "middle", "end"]),
+                           day=rng.random())
 
     def _gen_p_keyword(self, actor, rng):
         return self._gen_p(actor, rng, "p_keyword", kw=rng.choice(["yoy", "soy", "eopy", "tty", "int"]), k=rng.choice([-5, -1, 1, 3]))
@@ -877,6 +890,46 @@ class DatesWorld(World):
         self._after(name, "")
         return "ok"
 
+    def _do_span_strings(self, step, a):
+        """The span-level string/date converters enumerate exactly the span, and reading the strings back gives its periods."""
+        real, m = self.spans[a["s"]]
+        r = list(m.rng())
+        if any(not cal.valid_serial(m.f, x) for x in r[:1] + r[-1:]):
+            return "skipped"
+        import irispie.dates as irdates
+        F = ir.Frequency(cal.FREQ_VALUE[m.f])
+        kw = {} if m.f == "D" else {"position": a["position"]}
+
+        def back(periods):
+            return [(letter(q), int(q.serial)) for q in periods]
+        want = [(m.f, x) for x in r]
+
+        def thunk():
+            bad = []
+            sd = real.to_sdmx_strings()
+            if len(sd) != len(r) or len(set(sd)) != len(set(r)):
+                bad.append(f"to_sdmx_strings gives {len(sd)} strings ({len(set(sd))} distinct) for {len(r)} periods")
+            if back(irdates.periods_from_sdmx_strings(sd, F)) != want:
+                bad.append("periods_from_sdmx_strings(to_sdmx_strings(), frequency) is not the span")
+            if r and back(irdates.periods_from_sdmx_strings(sd)) != want:
+                bad.append("periods_from_sdmx_strings(to_sdmx_strings()) with the frequency inferred is not the span")
+            iso = real.to_iso_strings(**kw)
+            if back(irdates.periods_from_iso_strings(iso, frequency=F)) != want:
+                bad.append(f"periods_from_iso_strings(to_iso_strings({a['position']})) is not the span")
+            pyd = real.to_python_dates(**kw)
+            if [d.isoformat() for d in pyd] != list(iso):
+                bad.append("to_python_dates and to_iso_strings disagree")
+            if back(irdates.periods_from_python_dates(pyd, frequency=F)) != want:
+                bad.append("periods_from_python_dates(to_python_dates()) is not the span")
+            if r and list(irdates.period_indexes(real, real.start)) != [x - r[0] for x in r]:
+                bad.append("period_indexes relative to the start")
+            return bad
+        bad = self._guard("span_strings", m.f, thunk)
+        if bad:
+            raise Violation("refine", "span_strings", m.f, "", f"span of {len(r)} periods from serial {m.a}: {bad[:3]}")
+        self._after("span_strings", m.f)
+        return "ok"
+
     def _do_index(self, step, a):
         real, m = self.spans[a["s"]]
         r = m.rng()
@@ -1088,6 +1141,71 @@ class DatesWorld(World):
         if bad:
             raise Violation("refine", "p_calendar", f, "", f"calendar observers of serial {s}: {bad}")
         self._after("p_calendar", f)
+        return "ok"
+
+    def _do_p_convert(self, step, a):
+        """Conversions between periods, calendar days, strings and other frequencies agree with the independent calendar."""
+        p, (f, s) = self.periods[a["p"]]
+        if f == "I" or not cal.valid_serial(f, s + 1) or not cal.valid_serial(f, s - 1):
+            self._after("p_convert", f)
+            return "skipped"
+        g, position = a["g"], a["position"]
+        F = ir.Frequency(cal.FREQ_VALUE[f])
+        G = ir.Frequency(cal.FREQ_VALUE[g])
+        ys, ye = cal.ymd_start(f, s), cal.ymd_end(f, s)
+        inside = ys + dt.timedelta(days=int(a["day"] * ((ye - ys).days + 1)) % ((ye - ys).days + 1))
+
+        def thunk():
+            bad = []
+            kw = {} if f == "D" else {"position": position}
+            d = dt.date(*p.to_ymd(**kw))
+            if not (ys <= d <= ye) or (position == "start" and d != ys) or (position == "end" and d != ye):
+                bad.append(f"to_ymd({position}) {d}")
+            if p.to_python_date(**kw) != d:
+                bad.append(f"to_python_date({position}) {p.to_python_date(**kw)} vs to_ymd {d}")
+            if p.to_iso_string(**kw) != d.isoformat():
+                bad.append(f"to_iso_string({position}) {p.to_iso_string(**kw)!r} vs {d.isoformat()!r}")
+            # every calendar day inside the period maps back to the period, by date object and by ISO string
+            for day in (ys, ye, inside):
+                q = ir.Period.from_python_date(day, frequency=F)
+                if letter(q) != f or int(q.serial) != s:
+                    bad.append(f"from_python_date({day}) gives {q!r}")
+                q = ir.Period.from_iso_string(day.isoformat(), frequency=F)
+                if letter(q) != f or int(q.serial) != s:
+                    bad.append(f"from_iso_string({day.isoformat()}) gives {q!r}")
+                q = ir.Period.from_ymd(F, day.year, day.month, day.day)
+                if letter(q) != f or int(q.serial) != s:
+                    bad.append(f"from_ymd{(day.year, day.month, day.day)} gives {q!r}")
+            # the SDMX string names the period uniquely, with and without the frequency given
+            sd = p.to_sdmx_string()
+            if str(p) != sd and f != "D":
+                bad.append(f"str() {str(p)!r} differs from the SDMX string {sd!r}")
+            for q in (ir.Period.from_sdmx_string(sd, F), ir.Period.from_sdmx_string(sd)):
+                if letter(q) != f or int(q.serial) != s:
+                    bad.append(f"from_sdmx_string({sd!r}) gives {q!r}")
+            # conversion to another frequency lands on the period that contains the chosen day
+            want = cal.containing(g, d)
+            for name in ("refrequent", "convert", "convert_to_new_freq"):
+                q = getattr(p, name)(G, **kw)
+                if letter(q) != g or int(q.serial) != want:
+                    bad.append(f"{name}({g}, {position}) gives {q!r}, the period containing {d} is serial {want}")
+            q = p.to_daily(**kw)
+            if letter(q) != "D" or int(q.serial) != d.toordinal():
+                bad.append(f"to_daily({position}) gives {q!r}")
+            if p.get_year() != cal.year_of(f, s):
+                bad.append("get_year")
+            if f == "D":
+                if int(p.create_som().serial) != dt.date(ys.year, ys.month, 1).toordinal():
+                    bad.append("create_som")
+                if int(p.create_eopm().serial) != dt.date(ys.year, ys.month, 1).toordinal() - 1:
+                    bad.append("create_eopm")
+            return bad
+        bad = self._guard("p_convert", f, thunk)
+        if g != f:
+            self.probes["period_converted_to_other_frequency"] += 1
+        if bad:
+            raise Violation("refine", "p_convert", f, "", f"conversions of serial {s} ({position}, to {g}): {bad[:4]}")
+        self._after("p_convert", f)
         return "ok"
 
     def _do_p_keyword(self, step, a):
